@@ -44,6 +44,8 @@ class Ctx:
         self.functions = set()
         self.rule_counts: Dict[str, int] = {}
         self.extra: Dict[str, Any] = {}
+        self.control_errors: List[str] = []
+        self.is_control = False
 
     # ---- anchors ------------------------------------------------------------
     def fn(self, ref: str) -> FunctionInfo:
@@ -102,6 +104,42 @@ class Ctx:
         if got < n:
             raise AnalysisError("rule %s matched %d instance(s), fewer than the %d confirmed by hand "
                                 "(the rule would pass vacuously)" % (rule, got, n))
+
+
+def control(ctx: "Ctx", mod, name: str, make_variant, expect_rule: str, expect_where: Optional[str] = None):
+    """Positive control, evaluated on every run: apply an in-memory edit that breaks one rule instance and require
+    the same rule module to report it.  A stale anchor or a silent rule is an ANALYSIS-ERROR (the rule could be
+    passing vacuously)."""
+    if getattr(ctx, "is_control", False):
+        return
+    from . import variants
+    try:
+        src = make_variant(dict(ctx.repo.sources))
+    except variants.StaleVariant as e:
+        # the text the control edits is not present in this tree (the construct was rewritten): the control says
+        # nothing about the rule's health here; the rule's own minimum instance counts still guard against a
+        # vacuous pass.  Recorded, not fatal.
+        ctx.note("positive control '%s' not applicable to this tree (%s)" % (name, e))
+        ctx.extra.setdefault("controls_stale", []).append(name)
+        return
+    sub = Ctx(ctx.prop, ctx.tier, Repo(ctx.repo.root, sources=src))
+    sub.is_control = True
+    try:
+        mod.check(sub)
+    except AnalysisError as e:
+        # the broken variant left the understood fragment: acceptable only if that is what the control expects
+        if expect_rule == "ANALYSIS-ERROR":
+            ctx.ok(ctx.prop + ".control", "control:" + name, "seeded defect rejected as analysis error: %s" % e, trivial=True)
+            return
+        ctx.control_errors.append("positive control '%s' made the analysis fail instead of reporting: %s" % (name, e))
+        return
+    hits = [f for f in sub.findings if f.rule.startswith(expect_rule) and (expect_where is None or expect_where in f.where)]
+    if not hits:
+        ctx.control_errors.append("positive control '%s' was not reported by rule %s (reported: %s)" % (
+            name, expect_rule, [(f.rule, f.where) for f in sub.findings][:5]))
+        return
+    ctx.ok(ctx.prop + ".control", "control:" + name, "seeded defect reported by %s: %s" % (hits[0].rule, hits[0].message[:160]),
+           trivial=True)
 
 
 def load_known() -> Dict[str, Any]:
@@ -186,28 +224,24 @@ def run(prop: str, tier: str, quiet: bool = False, repo_root: Optional[str] = No
         out("ANALYSIS-ERROR property=%s no rule module (property not claimed)" % prop)
         return 2, [], None
     ctx = None
+    aerr = None
     try:
         repo = Repo(repo_root or os.environ.get('SWEETPEA_REPO', '/repo'), sources=sources)
         ctx = Ctx(prop, tier, repo)
         mod.check(ctx)
     except AnalysisError as e:
-        out("ANALYSIS-ERROR property=%s %s" % (prop, e))
-        if write:
-            write_evidence(prop, tier, seed, ctx, mod, time.time() - t0, 0, [], analysis_error=str(e))
-        return 2, [], ctx
+        aerr = str(e)
     except Exception as e:  # a crash of the analysis is not a verdict
-        tb = traceback.format_exc()
-        out("ANALYSIS-ERROR property=%s internal error: %r" % (prop, e))
+        aerr = "internal error: %r" % (e,)
         if not quiet:
-            sys.stderr.write(tb)
-        if write:
-            write_evidence(prop, tier, seed, ctx, mod, time.time() - t0, 0, [], analysis_error=repr(e))
-        return 2, [], ctx
+            sys.stderr.write(traceback.format_exc())
+    if ctx is not None and ctx.control_errors and aerr is None:
+        aerr = "; ".join(ctx.control_errors)
 
     known = load_known()
     listed = {(k["property"], k["rule"], k["key"]): k for k in known.get("findings", [])}
     new, seen = [], []
-    for f in ctx.findings:
+    for f in (ctx.findings if ctx else []):
         k = listed.get((f.prop, f.rule, f.key))
         if k is not None:
             seen.append("%s %s" % (f.rule, f.key))
@@ -216,6 +250,7 @@ def run(prop: str, tier: str, quiet: bool = False, repo_root: Optional[str] = No
             new.append(f)
     code = 0
     if new:
+        # a violated rule instance is reported even if a later anchor could not be analysed
         code = 1
         rp = os.path.join(EVIDENCE_DIR, prop + ".violation.json")
         if write:
@@ -225,12 +260,17 @@ def run(prop: str, tier: str, quiet: bool = False, repo_root: Optional[str] = No
         out("VIOLATION property=%s replay=%s" % (prop, rp))
         for f in new:
             out("  %s: rule %s: %s -- %s [construct: %s]" % (f.loc, f.rule, f.where, f.message, f.construct))
+        if aerr:
+            out("  (analysis incomplete: %s)" % aerr)
+    elif aerr:
+        code = 2
+        out("ANALYSIS-ERROR property=%s %s" % (prop, aerr))
     if write:
-        write_evidence(prop, tier, seed, ctx, mod, time.time() - t0, len(new), seen)
-    if not quiet:
+        write_evidence(prop, tier, seed, ctx, mod, time.time() - t0, len(new), seen, analysis_error=aerr)
+    if not quiet and ctx is not None:
         for n in ctx.notes:
             print("note: " + n)
         print("%s property=%s tier=%s instances=%d rules=%d findings=%d known=%d wall=%.2fs" % (
-            "HOLDS" if code == 0 else "FAILS", prop, tier, len(ctx.instances), len(ctx.rule_counts), len(new),
+            {0: "HOLDS", 1: "FAILS", 2: "UNDECIDED"}[code], prop, tier, len(ctx.instances), len(ctx.rule_counts), len(new),
             len(seen), time.time() - t0))
     return code, new, ctx
